@@ -74,7 +74,7 @@ func contractsFor(specs *Specs, prop string) []*Contract {
 				rel = true
 			}
 		}
-		for _, nc := range c.NoCalls {
+		for _, nc := range append(append([]*Clause{}, c.NoCalls...), c.CallCounts...) {
 			if hasProp(nc.Props, prop) {
 				rel = true
 			}
